@@ -27,7 +27,7 @@ ASSUMPTIONS = [
     "cylindrical grids with periodic z: cases in which the droplet reaches across the z boundary are expected to fail because py-pde 0.58 "
     "does not wrap z (known finding), they are tagged wraps_z",
 ]
-LEVELS = [(0.0, 1.0), (0.2, 0.8), (-1.0, 1.0), (5.0, 2.0)]
+LEVELS = [(0.0, 1.0), (0.2, 0.8), (-1.0, 1.0), (5.0, 2.0), (1.0, 2.0), (-1.0, 0.0)]  # incl. unit contrast off zero, and an inside value of exactly 0
 
 
 def cart(shape, mask, dx, origin):
